@@ -51,6 +51,12 @@ CLAIMED = {
          'digitized_energy_in_channel (ENERGY inside the rounded PHA channel for any nearest rounding), centre_in_channel, rintHalf_close; every distinct rmf in the CALDB checked over all channels; '
          'the chain PHA/PI/ENERGY/MC_* on simulated files incl. charging; the energy used by xpselect/xpbin.',
          'Lean kernel + Mathlib; translator; EBOUNDS tables are data (enumerated); FITPACK linear spline for channel_to_energy of the rmf; float32 storage tolerance 3e-6 keV.'),
+ 'C02': ('proof', 'Lean 4 theorems about a RealLike model of xStokesAnalysis (per bin and per event list), tied by correspondence on Float and an independent published-formula oracle on real xpbin files',
+         'pd_nonneg, pa_abs_le_90, mdp_in_unit, empty_bin, pol_errs_nonneg, stokes_errs_nonneg, polarization_eq_published / mdp_eq_published (under the code masks the outputs are eqs. 21/36/22/37/A.8), '
+         'neff_nonneg, adjacent_bins_partition; all columns of polarization_table compared with the model (static methods on degenerate bins, constructor with weights/acceptance correction), '
+         'PCUBE files from the real xpbin against the formulae written independently (DUs, weights, acceptcorr, MC energy, LIST and EQP binnings, empty bins), weight-scheme guard.',
+         'Lean kernel + Mathlib; model + generators; SIGNIF uses scipy (external); response splines as per-event values; float32 FITS columns (2e-5); '
+         'μ = 0 bins with finite Q, U are unreachable through the constructor (recorded: the static error formulae return inf there).'),
 }
 NOT_YET = 'check not built yet in this round (work in progress; see DESIGN.md section 7 for the planned model and theorems)'
 
